@@ -222,8 +222,26 @@ def run(ck: Check) -> int:
                             ck.report(Failing(f'glob.escape({full!r}, unix=False) also matches {x!r}',
                                               {'api': 'globmatch', 's': full, 'pattern': gp, 'other': x, 'flags': G.FORCEWIN}, False, True), kid)
                             sr.histogram[kid or 'win-extra-match'] = sr.histogram.get(kid or 'win-extra-match', 0) + 1
-                    if G.is_magic(gp, flags=G.FORCEWIN) is False and any(ch in full for ch in '*?[') and False:
-                        pass
+                    # non-magic => literal, for the UNESCAPED shape under every combination of the two platform flags (both together
+                    # cancel out: host rules): if glob.is_magic says no, the pattern matches itself and none of the spellings in which a
+                    # metacharacter is replaced (added after seeded change C09h: glob.is_magic stopped cancelling FORCEWIN|FORCEUNIX, so
+                    # `//server/sh*re/x` counted as a drive under is_magic while the matcher read it by Unix rules)
+                    for pfl in (0, G.FORCEUNIX, G.FORCEWIN, G.FORCEWIN | G.FORCEUNIX):
+                        sr.evaluations += 1
+                        if G.is_magic(full, flags=pfl):
+                            continue
+                        sr.histogram['non-magic drive shape'] = sr.histogram.get('non-magic drive shape', 0) + 1
+                        if not G.globmatch(full, full, flags=pfl):
+                            ck.report(Failing(f'non-magic (glob.is_magic False) {full!r} does not match itself', {'api': 'globmatch', 's': full, 'flags': pfl}, True, False), None)
+                        for x in (full.replace('*', 'Z'), full.replace('[b]', 'b'), full.replace('?', 'q'), full.replace('[', 'q')):
+                            if x != full and G.globmatch(x, full, flags=pfl):
+                                # KF-D28 (same site, seen through is_magic instead of escape): under Windows rules RE_WIN_DRIVE carves a
+                                # drive out of an incomplete device prefix that the parser does not recognise as one
+                                normf = full.replace('\\', '/')
+                                winr = bool(pfl & G.FORCEWIN) and not pfl & G.FORCEUNIX
+                                kid = 'KF-D28' if (winr and normf[:4] in ('//?/', '//./') and W._get_win_drive(full, True, False)[1] is None) else None
+                                ck.report(Failing(f'non-magic (glob.is_magic False) {full!r} matches {x!r}', {'api': 'globmatch', 's': full, 'other': x, 'flags': pfl}, False, True), kid)
+                                sr.histogram[kid or 'non-magic-extra-match'] = sr.histogram.get(kid or 'non-magic-extra-match', 0) + 1
             except common.CallTimeout:
                 continue
         sr.note = ('self-match and one-edit neighbours of s against escape(s): fnmatch on names, glob on paths (Unix and Windows rules, '
